@@ -295,8 +295,7 @@ def r6_non_dummy_witness(ctx, P):
 EB_TRAIT = "error_behavior::ErrorBehavior"
 
 
-def r5_claimed_is_not_alloc_failure(ctx, P):
-    R = "C14.R5"
+def r5_claimed_is_not_alloc_failure(ctx, P, R="C14.R5"):
     ctx.rule(R, "a refused request on a claimed handle is reported as claimed (unwinding panic for the panicking API), never "
                 "as an allocation failure (alloc::handle_alloc_error aborts): every E::allocation(..) that reports the "
                 "failure of a call on a bump-allocator handle is control dependent on the false edge of is_claimed(); the "
